@@ -56,11 +56,17 @@ def digitsAux : Nat → Nat → Str → Str
 /-- `str(n)`: the decimal digits of `n` as code points -/
 def natStr (n : Nat) : Str := digitsAux (n + 1) n []
 
+/-- `cutoff is None or len(luids) >= cutoff` -/
+def keepBy (cutoff : Option Nat) (n : Nat) : Bool :=
+  match cutoff with
+  | none => true
+  | some c => decide (c ≤ n)
+
 /-- the records `discover` hands to `Converter(...)` -/
 def records (alnum : Nat → Bool) (known : Str → Bool) (delims : List Str) (cutoff : Option Nat)
     (metaprefix : Str) (uris : List Str) : List Record :=
   let groups := isort (fun (a b : Str × List Str) => strLe a.1 b.1) (prefixToLuids alnum known delims uris)
-  let kept := (groups.filter fun g => match cutoff with | none => true | some c => decide (c ≤ g.2.length)).map (·.1)
+  let kept := (groups.filter fun g => keepBy cutoff g.2.length).map (·.1)
   (List.range kept.length).zipWith (fun i up => { pfx := metaprefix ++ natStr (i + 1), uri := up }) kept
 
 /-- `converter is not None and converter.is_uri(uri)` -/
